@@ -9,6 +9,10 @@ All models here are *opt-in* through scenario options, so that scenarios of othe
   an uninterpreted function of s, constrained by true facts (over-approximation): it neither starts nor ends with a
   character of `chars`, is s itself if s is already clean, one-character unfolding on either side; plus the fact that
   lower() commutes with strip(chars) when `chars` contains no cased character.
+* `lower_identity=True` -- `s.lower()` returns s: the scenario's inputs are canonical lower-case strings (fixpoints of lower())
+  and every string the code lowers is built from them by slicing / stripping / concatenation with lower-case literals
+  (fixpoints of lower() are exactly the strings without lowerable characters, a set closed under these operations).
+  The scenario must list this as an assumption.
 * `rfind_uf=True`      -- `s.rfind(sub)` is the application of an uninterpreted function constrained by the same
   characterisation the default model states for a fresh integer (so that two runs on equal arguments agree by congruence).
 """
@@ -201,3 +205,21 @@ for _T in (SStr, SBytes):
         METHODS[(T, "rfind")] = _rfind
 
     _mk_rfind(_T)
+
+
+# ---------------------------------------------------------------------------------------------------------------------
+# lower() on canonical inputs (opt-in)
+
+for _T in (SStr, SBytes):
+    def _mk_lower(T):
+        default = METHODS[(T, "lower")]
+
+        def _lower(it, s):
+            if _opt(it, "lower_identity") and s.concrete() is None:
+                it.ex.note("assumed", "inputs are canonical lower-case: lower() is the identity on every string derived from them")
+                return s
+            return default(it, s)
+
+        METHODS[(T, "lower")] = _lower
+
+    _mk_lower(_T)
